@@ -50,8 +50,7 @@ Prog(op, c, pos) ==
 
 \* enumerate small keys first (cheap to normalise), then expand each key into its case record
 Keys == UNION {{<<op, c, pos>> : c \in Combos(op), pos \in Positions} : op \in Ops}
-KeySeq == SetToSeq(Keys)
 CaseOf(k) == [op |-> k[1], b1 |-> k[2][1], b2 |-> k[2][2], l |-> k[2][3], pos |-> k[3], prog |-> Prog(k[1], k[2], k[3]),
               pc |-> IF k[3] = "first" THEN 0 ELSE 1]
-OwnCases == [i \in 1..Len(KeySeq) |-> CaseOf(KeySeq[i])]
+OwnCases == LET ks == SetToSeq(Keys) IN [i \in 1..Len(ks) |-> CaseOf(ks[i])]
 =============================================================================
